@@ -118,9 +118,12 @@ fn consts_one(m: &dyn Machine, ms: &MachineSpec, full_n: u32, rep: &mut Report) 
         Err(_) => viol(rep, "panic", vec![Step::op("zero", 0, 0, 0)], expect_value(0), "Panicked".into()),
     }
     // raw round trip
-    let states: Vec<u128> = if ms.n <= full_n { (0..(1u128 << ms.n)).collect() } else { state_alpha(ms.n, &ms.fields) };
+    let states = if ms.n <= full_n { crate::sweep::StateSet::Range(1u128 << ms.n) } else { crate::sweep::StateSet::List(state_alpha(ms.n, &ms.fields)) };
     let mut distinct = std::collections::HashSet::new();
-    for &x in &states {
+    let mut xi = 0u128;
+    while xi < states.len() {
+        let x = states.get(xi);
+        xi += 1;
         rep.states += 1;
         rep.transitions += 2;
         rep.compared += 1;
@@ -138,7 +141,7 @@ fn consts_one(m: &dyn Machine, ms: &MachineSpec, full_n: u32, rep: &mut Report) 
     }
     rep.distinct_outcomes += distinct.len() as u64;
     if rep.samples.len() < 6 && ms.n % 13 == 0 {
-        let x = states[states.len() / 2];
+        let x = states.get(states.len() / 2);
         rep.samples.push(serde_json::json!({"decl": ms.head, "trace": format!("new_with_raw_value({x:#x}).raw_value()"), "expected_and_observed": format!("{x:#x}")}));
     }
     let fam = rep.per_family.entry(ms.family.clone()).or_default();
